@@ -155,6 +155,10 @@ def wire_check(layers, b):
         elif k == "gre":
             if len(rem) < 4: return (k, "short")
             fl = be(rem[0:2]); n = 4
+            # RFC 1701/2890: C, R, K, S, s, recursion, reserved, version — exactly the optional fields the object has
+            want_fl = (0x8000 if L["csum"] else 0) | (0x4000 if L.get("routing") is not None else 0) | (0x2000 if L["key"] is not None else 0) | \
+                      (0x1000 if L["seq"] is not None else 0) | (0x0800 if L["ssr"] else 0)
+            if fl != want_fl: return (k, "flag word %04x, the object's optional fields need %04x" % (fl, want_fl))
             if fl & 0xc000:
                 if fl & 0x8000:
                     want = rfc1071(rem[:4] + b"\0\0" + rem[6:])
@@ -162,6 +166,10 @@ def wire_check(layers, b):
                 n += 4
             if fl & 0x2000: n += 4
             if fl & 0x1000: n += 4
+            if fl & 0x4000:          # source route entries: family, offset, length, data; the list ends with a null entry
+                want = b"".join(struct.pack("!HBB", e["af"], e["so"], len(e["data"]) // 2) + bytes.fromhex(e["data"]) for e in L["routing"]) + bytes(4)
+                if rem[n:n + len(want)] != want: return (k, "source route entries of the object are not in the emitted bytes")
+                n += len(want)
             off += n; ip = None
         elif k == "vxlan":
             off += 8; ip = None
@@ -403,6 +411,7 @@ class C14(Check):
         self.pkgdir = os.path.join(common.REPO, "pox", "lib")
         self.variant = self.detect_variant()
         self.shared_ok = self.probe_shared()
+        self.gre_route_nocsum = self.probe_gre_route()
         # name-based anchors: resolved by common.AnchorCoverage with ast on every run (robust to line shifts)
         self.anchors = [("pox/lib/packet/%s.py" % mod, f) for mod, funcs in self.ANCHOR_FUNCS.items() for f in funcs]
 
@@ -452,6 +461,18 @@ class C14(Check):
         except Exception:
             return True          # unknown behaviour: generate, let the oracle speak
         return any(f.get("id") == "C14-K1" for f in common.Findings().open)
+
+    def probe_gre_route(self):
+        """Proposed finding C14-K2 (fixes/C14-K2_gre_routing_without_checksum.diff): a gre header with source route entries but no checksum
+        cannot be packed (hdr() packs `None` into the checksum word) and, read off the wire, comes back with csum = 0, so that re-packing
+        sets the C bit.  Such objects are generated when the tree under test round-trips one or the finding is registered."""
+        try:
+            G = self.m["gre"].gre
+            b = G(type=0x1234, routing=[(1, 0, 4, b"abcd"), (0, 0, 0, b"")], payload=b"xy").pack()
+            if G(raw=b).pack() == b and be(b[0:2]) == 0x4000: return True
+        except Exception:
+            pass
+        return any(f.get("id") == "C14-K2" for f in common.Findings().open)
 
     def _variant_from_source(self):
         import ast
@@ -625,6 +646,8 @@ class C14(Check):
         # gre.hdr() replaces csum=True by the number it computed ("include it if it is set to a number", class docstring), so an object that
         # is packed again after a change keeps the old checksum unless compute_csum is set: the histories use the documented switch
         if L["csum"] and L.get("_always"): kw["compute_csum"] = True
+        if L.get("routing") is not None:
+            kw["routing"] = [(e["af"], e["so"], len(e["data"]) // 2, bytes.fromhex(e["data"])) for e in L["routing"]] + [(0, 0, 0, b"")]
         return self.m["gre"].gre(**self._pl(kw, n))
     def mk_vxlan(self, L, n):
         return self.m["vxlan"].vxlan(**self._pl(dict(vni=L["vni"]), n))
@@ -726,8 +749,12 @@ class C14(Check):
                 return {"k": "igmp", "vt": o.ver_and_type, "csum": o.csum, "extra": self._hex(o.extra),
                         "groups": [{"type": r.type, "addr": self._ip(r.address), "srcs": [self._ip(a) for a in r.source_addresses], "aux": self._hex(r.aux)} for r in o.group_records]}
             return {"k": "igmp", "vt": o.ver_and_type, "mrt": o.max_response_time, "csum": o.csum, "addr": (None if o.address is None else self._ip(o.address)), "extra": self._hex(o.extra)}
-        if name == "gre": return {"k": "gre", "type": o.type, "ver": o.ver, "key": o.key, "seq": o.seq, "csum": o.csum, "route_offset": o.route_offset,
-                                  "ssr": bool(o.strict_source_route), "recursion": o.recursion}
+        if name == "gre":
+            d = {"k": "gre", "type": o.type, "ver": o.ver, "key": o.key, "seq": o.seq, "csum": o.csum, "route_offset": o.route_offset,
+                 "ssr": bool(o.strict_source_route), "recursion": o.recursion}
+            if o.routing is not None:          # (only when present: the model, which declines routing, has no such key)
+                d["routing"] = [x.hex() if isinstance(x, bytes) else [x[0], x[1], x[2], bytes(x[3]).hex() if len(x) > 3 else ""] for x in o.routing]
+            return d
         if name == "vxlan": return {"k": "vxlan", "vni": o.vni}
         if name == "rip": return {"k": "rip", "command": o.command, "version": o.version,
                                   "entries": [{"af": e.address_family, "tag": e.route_tag, "ip": self._ip(e.ip), "mask": self._ip(e.netmask), "nh": self._ip(e.next_hop), "metric": e.metric}
@@ -870,8 +897,32 @@ class C14(Check):
         except Exception as e:
             obs.update(repack_exc=type(e).__name__, stage="repack", where=self._lib_exc(e)); return obs
         obs["repack"] = b2.hex()
+        try:
+            v = self.verify_api(obj, False) + self.verify_api(q, True)
+        except Exception as e:
+            v = ["a checksum method raises %s at %s" % (type(e).__name__, self._lib_exc(e))]
+        if v: obs["verify"] = v
         obs["_q"] = q; obs["_obj"] = obj
         return obs
+
+    def verify_api(self, o, parsed):
+        """the classes' own verification methods (ipv4/udp/tcp .checksum(), .checksum(unparsed=True) on received objects, icmpv6.checksum_ok())
+        must agree with the checksum field the object carries — the value that is on the wire, which the wire walk has already checked"""
+        out = []; n = 0
+        while isinstance(o, self.packet_base) and n < 64:
+            n += 1
+            name = type(o).__name__
+            if parsed and not o.parsed: break
+            if name in ("ipv4", "udp", "tcp") and isinstance(getattr(o, "csum", None), int):
+                got = o.checksum()
+                if got != o.csum: out.append("%s %s.checksum() = %04x, checksum field %04x" % ("parsed" if parsed else "built", name, got, o.csum))
+                if parsed and name != "ipv4":
+                    got = o.checksum(unparsed=True)
+                    if got != o.csum: out.append("parsed %s.checksum(unparsed=True) = %04x, checksum field %04x" % (name, got, o.csum))
+            if parsed and name == "icmpv6" and type(o.prev).__name__ == "ipv6" and not o.checksum_ok:
+                out.append("parsed icmpv6.checksum_ok is False")
+            o = o.next
+        return out
 
     # ---- call histories on the same objects (HARDENING 1, 2, 4): what every call returns must be what a fresh process returns
     I = lambda bits, attr=None: ("int", bits, attr)
@@ -1043,7 +1094,7 @@ class C14(Check):
     # ------------------------------------------------------------------ model
     def modelled(self, case):
         if case["kind"] == "cksum": return True
-        ok = lambda Ls: all((L["k"] in MODELLED and not L.get("ext")) or L["k"] in TERMINAL for L in Ls)
+        ok = lambda Ls: all((L["k"] in MODELLED and not L.get("ext") and L.get("routing") is None) or L["k"] in TERMINAL for L in Ls)
         if case["kind"] == "hist": return all(ok(Ls) for Ls in case["stacks"])
         return ok(case["layers"]) and (case.get("other") is None or ok(case["other"]))
 
@@ -1225,6 +1276,7 @@ class C14(Check):
             b2 = bytes.fromhex(obs["repack"])
             p = next((i for i in range(min(len(b), len(b2))) if b[i] != b2[i]), min(len(b), len(b2)))
             return "re-pack differs at byte %d (%d vs %d bytes)" % (p, len(b), len(b2))
+        if obs.get("verify"): return "verification method: " + obs["verify"][0]
         return None
 
     @staticmethod
@@ -1248,6 +1300,7 @@ class C14(Check):
             if L["questions"]: tags.append("q")
             if L["answers"] or L["authorities"] or L["additional"]: tags.append("rr")
         if k == "igmp": tags.append("v3" if L["vt"] == 0x22 else "v2")
+        if k == "gre" and L.get("routing") is not None: tags.append("routing" if L["csum"] else "routing-nocsum")
         if k == "eap": tags.append("code%d" % L["code"])
         if k == "vlan" and L["cfi"]: tags.append("cfi")
         if k in ("nd_ns", "nd_na", "nd_rs", "nd_ra") and L.get("opts"): tags.append("opts")
@@ -1307,6 +1360,8 @@ class C14(Check):
             return "reparse-field:%s.%s" % (sigs.get(k, k), f)
         if failure.startswith("re-pack of"): return "repack:%s:%s" % (obs["where"], obs["repack_exc"])
         if failure.startswith("re-pack differs"): return "repack-diff:" + "/".join(self._sig(L) for L in layers if L["k"] not in TERMINAL)
+        if failure.startswith("verification method: "):
+            return "verify:" + re.sub(r" = [0-9a-f]{4}, checksum field [0-9a-f]{4}| raises .*", "", failure[len("verification method: "):])
         return failure[:60]
 
     def nontrivial(self, case, obs):
@@ -1572,6 +1627,9 @@ class C14(Check):
                                                          "extra": self.rbytes(rng, rng.choice([0, 0, 4, 3])).hex()}, {"k": "none"}])
         if c == "gre":
             g = {"k": "gre", "type": 0, "key": rng.choice([None, self.val(rng, 32)]), "seq": rng.choice([None, self.val(rng, 32)]), "csum": rng.random() < 0.5, "ssr": rng.random() < 0.2}
+            if rng.random() < 0.3:          # RFC 1701 source route entries (not modelled: differential + wire walk)
+                g["routing"] = [{"af": rng.choice([0x0800, 1, 0xffff]), "so": self.val(rng, 8), "data": self.rbytes(rng, rng.choice([4, 8, 1, 255])).hex()} for _ in range(rng.choice([0, 1, 1, 3]))]
+                if not self.gre_route_nocsum: g["csum"] = True
             w = rng.choice(["ip", "eth", "raw"])
             if w == "ip":
                 g["type"] = 0x0800; return self._stack([E("ipv4"), ip("gre"), g, ip(None), self.bytes_layer(rng, hi=1300)])
@@ -1955,6 +2013,11 @@ class C14(Check):
                     L = {"k": "llc", "dsap": 0xaa if snap else 0x42, "ssap": 0xaa if snap else 0x42, "control": ctrl, "length": (4 if two else 3) + (5 if snap else 0),
                          "oui": "00000c" if snap else None, "eth_type": 0x2000 if snap else None}
                     cases.append(S([dict(E, type=L["length"] + len(pl)), L, B(pl)]))
+        # --- GRE source route entries (RFC 1701), every combination of the optional fields around them
+        for key, seq, ssr in ((None, None, False), (7, None, True), (None, 9, False), (0xdeadbeef, 0xffffffff, True)):
+            for rt in ([], [{"af": 0x0800, "so": 0, "data": "0a000001"}], [{"af": 1, "so": 4, "data": "0a0000010a000002"}, {"af": 0xffff, "so": 255, "data": "ab"}]):
+                for cs in ((True, False) if self.gre_route_nocsum else (True,)):
+                    cases.append(S([E, I(47), {"k": "gre", "type": 0x0800, "key": key, "seq": seq, "csum": cs, "ssr": ssr, "routing": rt}, I(253), B(b"abc")]))
         # --- 3: the Ethernet type / length boundary
         for t in (1500, 1535):
             cases.append(S([dict(E, type=t), {"k": "llc", "dsap": 0x42, "ssap": 0x42, "control": 3, "length": 3, "oui": None, "eth_type": None}, B(b"abc")]))
@@ -2261,7 +2324,7 @@ class C14(Check):
         for c in self.generate(rng, "thorough"): yield c
 
     def extra_evidence(self):
-        return {"malformed_stream_cases_outside_model": self.declined, "code_variant": self.variant, "code_variant_crosscheck": getattr(self, "variant_crosscheck", None), "shared_component_histories": self.shared_ok, "technique": self.technique, "level_text": self.level_text, "level_note": self.level_note, "design_ref": self.design_ref}
+        return {"malformed_stream_cases_outside_model": self.declined, "code_variant": self.variant, "code_variant_crosscheck": getattr(self, "variant_crosscheck", None), "shared_component_histories": self.shared_ok, "gre_routing_without_checksum_cases": self.gre_route_nocsum, "technique": self.technique, "level_text": self.level_text, "level_note": self.level_note, "design_ref": self.design_ref}
 
 
 C14.theorems = ["Pox.C14." + t for t in (
